@@ -165,7 +165,7 @@ fn main() {
             }
         }
         for (vl, clauses) in variants {
-            let depth = if quick { 5 } else if seq.len() == 3 { 6 } else { 7 };
+            let depth = if quick { 5 } else if seq.len() == 3 { 5 } else { 6 };
             cases.push(Case {
                 label: format!("{label}/{vl}"),
                 config: Config {
